@@ -315,7 +315,7 @@ pub fn run(ctx: &Ctx) -> Outcome {
     let only_idx = ctx.replay.as_ref().and_then(|r| r.get("index").and_then(|s| s.as_u64()));
     let (lo, hi) = match only_idx {
         Some(i) => (i, i + 1),
-        None => (0, ctx.tier.pick(3000, 150_000)),
+        None => (0, ctx.tier.pick(12_000, 150_000)),
     };
     run_cases(&mut acc, "undo", hi - lo, |i| {
         let mut out = CaseOut::new();
